@@ -14,7 +14,8 @@ code -> spec: seeded random expressions (deeper nesting, raw Criterion/ChartGrou
               joins, awkward characters) and long id / package lists with random budgets.
 Every observation is judged by BugQuery_Trace: UniqueSlot, SlotShape, Balanced, Meaning_simple,
 Meaning_charts (normal forms equal), Semantics (truth table over the mentioned <<field, word>> pairs),
-Paging, AnyOf_SimpleDropped / SpuriousRefusal, Render_Raised / Batch_Raised (any other exception), Batch_Partition / _NonEmpty / _OthersUnchanged / _Budget /
+Paging, AnyOf_SimpleDropped / SpuriousRefusal, Render_Raised / Batch_Raised (any other exception), Batch_Stable (a batch
+renders the same when it is yielded and after all batches were collected; both renderings are judged), Batch_Partition / _NonEmpty / _OthersUnchanged / _Budget /
 _NoAxisIdentity.
 
 Carve-outs (not judged, never generated): any_of() without members or with a member that has no chart
@@ -150,12 +151,17 @@ def observe_render(real, tid, expr):
 
 
 def observe_batch(real, tid, expr, base, mx):
-    ev = dict(tid=tid, i=0, ev="batch", expr=expr, base=base, max=mx, raised="", ps=[], bs=[])
+    """bs: every batch rendered the moment it is yielded (one at a time, as the client consumes them);
+    bs2: the same batch objects rendered once the generator is exhausted (list(q.batches()) and then use)."""
+    ev = dict(tid=tid, i=0, ev="batch", expr=expr, base=base, max=mx, raised="", ps=[], bs=[], bs2=[])
     try:
         q = real.build(expr)
         ev["ps"] = project(q.params())
+        kept = []
         for b in q.batches(base_length=base, max_length=mx):  # a generator: keep what came out before a failure
             ev["bs"].append(project(b.params()))
+            kept.append(b)
+        ev["bs2"] = [project(b.params()) for b in kept]
     except Exception as e:  # the code under test failed: an observation (judged by the trace spec), never a driver crash
         ev["raised"] = type(e).__name__
     return ev
@@ -393,6 +399,6 @@ def run(ck):
         ck.count()
     ck.sample(dict(direction="code->spec", batch=show(events[-1]["expr"])[:200], base=events[-1]["base"], max=events[-1]["max"],
                    batches=len(events[-1]["bs"])))
-    step = ck.pick(700, 1500)
+    step = ck.pick(2500, 1500)
     for k in range(0, len(events), step):
         judge(ck, events[k:k + step], f"Trace:random-{k // step}", semmax)
